@@ -1,0 +1,116 @@
+//! Verification hooks (built only with `--cfg erbium_verif`): access to the
+//! crate-private pieces of the DNS service for the checks in /verif.  Nothing
+//! here is used by erbium itself; every function delegates to the real code.
+pub use super::bucket::{Clock, GenericTokenBucket, RealTimeClock};
+pub use super::cache::verif as cache;
+
+use super::*;
+
+/// The route handler (`router::DnsRouteHandler`) over a loaded configuration.
+pub struct Router(router::DnsRouteHandler);
+
+impl Router {
+    pub async fn new(conf: crate::config::SharedConfig) -> Self {
+        Router(router::DnsRouteHandler::new(conf).await)
+    }
+    pub async fn handle_query(&self, msg: &DnsMessage) -> Result<dnspkt::DNSPkt, Error> {
+        self.0.handle_query(msg).await
+    }
+}
+
+/// The route table as loaded: per route its suffixes (labels as octets) and
+/// `None` for forge-nxdomain or `Some(servers)` for forward.
+pub type RouteDump = (Vec<Vec<Vec<u8>>>, Option<Vec<std::net::SocketAddr>>);
+pub async fn routes_dump(conf: &crate::config::SharedConfig) -> Vec<RouteDump> {
+    conf.read()
+        .await
+        .dns_routes
+        .iter()
+        .map(|r| {
+            (
+                r.suffixes.iter().map(|d| d.verif_labels()).collect(),
+                match &r.dest {
+                    config::Handler::Forward(v) => Some(v.clone()),
+                    config::Handler::ForgeNxDomain => None,
+                },
+            )
+        })
+        .collect()
+}
+
+/// Point the forward routes at other sockets (the loader only produces port 53).
+pub async fn routes_retarget(
+    conf: &crate::config::SharedConfig,
+    f: &(dyn Fn(usize, std::net::SocketAddr) -> std::net::SocketAddr + Sync),
+) {
+    for (i, r) in conf.write().await.dns_routes.iter_mut().enumerate() {
+        if let config::Handler::Forward(v) = &mut r.dest {
+            for a in v.iter_mut() {
+                *a = f(i, *a);
+            }
+        }
+    }
+}
+
+/// The two-bucket limiter (`IpRateLimiter`); it reads the real clock.
+pub struct Limiter(IpRateLimiter);
+
+impl Limiter {
+    pub fn new() -> Self {
+        Limiter(IpRateLimiter::new())
+    }
+    pub async fn check(&self, ip: std::net::IpAddr, bytes: usize) -> bool {
+        self.0.check(ip, bytes).await
+    }
+    /// `DnsListenerHandler::should_ratelimit` (cookie check against the
+    /// process-wide keys, cost function, limiter).
+    pub async fn should_ratelimit(
+        &self,
+        msg: &DnsMessage,
+        in_reply: &dnspkt::DNSPkt,
+        in_reply_serialised: &[u8],
+    ) -> bool {
+        DnsListenerHandler::should_ratelimit(msg, in_reply, in_reply_serialised, &self.0).await
+    }
+}
+
+impl Default for Limiter {
+    fn default() -> Self {
+        Self::new()
+    }
+}
+
+/// Install the process-wide cookie keys (no rotation for the next 36 h).
+pub async fn set_cookie_keys(current: [u8; 8], previous: [u8; 8]) {
+    let mut keys = COOKIE_KEYS.write().await;
+    *keys = CookieKeys {
+        next_refresh: tokio::time::Instant::now() + HOURS_36,
+        current,
+        previous,
+    };
+}
+
+/// 0 = missing, 1 = bad, 2 = good: `validate_cookie_keys` with caller-supplied keys.
+pub fn validate_cookie_keys(msg: &DnsMessage, key: &[u8], oldkey: &[u8]) -> u8 {
+    match msg.validate_cookie_keys(key, oldkey) {
+        CookieStatus::Missing => 0,
+        CookieStatus::Bad => 1,
+        CookieStatus::Good => 2,
+    }
+}
+
+/// The server cookie erbium computes for this message's addresses under `key`.
+pub fn server_cookie(msg: &DnsMessage, client: &[u8], key: &[u8]) -> [u8; 32] {
+    use hmac::Mac as _;
+    msg.calculate_cookie(client, key)
+        .finalize()
+        .into_bytes()
+        .as_slice()
+        .try_into()
+        .unwrap()
+}
+
+/// The error reply erbium builds (`create_in_error`).
+pub async fn create_in_error(msg: &DnsMessage, err: Error) -> dnspkt::DNSPkt {
+    DnsListenerHandler::create_in_error(msg, err).await
+}
